@@ -248,7 +248,7 @@ Proof.
   intros I H.
   destruct I as [Iin Irun Inot Iearly Iclosing Iidle Istop Idone Ireterr Iclosers Icoll Idn Istarts
                  Ikret Iacc J1 J2 J3 J4 Ing].
-  destruct e; cbn [step_c] in H.
+  destruct e; cbn [step_c step_c_gen step_c_gen] in H.
   - (* CRunCas *)
     destruct (c_running s) eqn:Er; inv H.
     + constructor; cfin.
